@@ -21,6 +21,7 @@ def check(run, tier):
     r = rng("C09")
     progs = emitters.targeted_programs("evo") + emitters.targeted_programs("fluent")[:10]
     progs += targeted.kwarg_programs("evo") + targeted.kwarg_programs("fluent")
+    progs += [p for dev in ("evo", "fluent") for p in targeted.config_programs(dev) if "diti" in p["id"] or "single-steps" in p["id"]]
     n = 120 if q else 3000
     for i in range(n):
         dev = ["evo", "fluent", "base"][i % 3]
